@@ -8,7 +8,7 @@ BUDGET = {"quick": 45, "thorough": 780}
 RULE = ("worlds with heterogeneous voltages, all battery models, noise tapes, scripted schedules addressing vacant "
         "stations, 20% StochasticNetwork worlds; non-trivial = >=1 period with a non-zero rate strictly below the pilot "
         "(battery-limited) and >=1 non-zero pilot sent to a vacant station; distinct = per-period history signature")
-PROBES = ["battery_limited", "vacant_pilot", "resume_json", "stochastic_world", "noisy_battery", "party_charged_its_ev_copies", "second_life"]
+PROBES = ["battery_limited", "vacant_pilot", "resume_json", "stochastic_world", "noisy_battery", "party_charged_its_ev_copies", "second_life", "duplicate_plugin_event_refused"]
 FAULT_DIMENSION = "scheduler crash + rerun / JSON round trip; adversarial noise tape; a scheduler that 'charges' the EV copies it was handed (look-ahead)"
 ASSUMPTIONS = ["station voltages are taken from the scenario, not from the network object",
                "battery charge is read from the battery object's stored charge attribute (observation only)"]
@@ -21,7 +21,18 @@ P_STOCH = world.profile(net="stochastic", stations=(1, 4), faults={"crash": 0.3}
 
 
 def gen(rs, tier):
-    return world.gen_world(rs, P_STOCH if rs % 5 == 0 else P_CUSTOM)
+    sc = world.gen_world(rs, P_STOCH if rs % 5 == 0 else P_CUSTOM)
+    r = world.sub(rs, "dupplug")
+    if sc["network"]["kind"] == "custom" and r.random() < 0.06:
+        # invalid input (two data pulls merged): a second plug-in event for a session that is already attached. The library
+        # refuses it (StationOccupiedError ends the run); if a run does complete, its ledger must still balance
+        cands = [s for s in sc["sessions"] if s["departure"] - s["arrival"] >= 2]
+        if cands:
+            s0 = r.choice(cands)
+            sc["dup_plugin"] = {"session_id": s0["session_id"], "station": s0["station"], "t": r.randint(s0["arrival"] + 1, s0["departure"] - 1)}
+            sc["faults"] = []
+            sc.pop("second_life", None)
+    return sc
 
 
 def check(sc):
@@ -91,6 +102,8 @@ def check(sc):
     out.probe("stochastic_world", 1 if sc["network"]["kind"] == "stochastic" else 0)
     out.probe("noisy_battery", 1 if tr.noise_draws else 0)
     out.probe("second_life", tr.fault_counts.get("second_life", 0))
+    if sc.get("dup_plugin") and tr.exc is not None and type(tr.exc).__name__ == "StationOccupiedError":
+        out.probe("duplicate_plugin_event_refused")
     out.probe("party_charged_its_ev_copies", tr.fault_counts.get("mutate", 0))
     out.nontrivial = batt_lim > 0 and vac > 0
     if not ok or out.viol:
